@@ -37,10 +37,9 @@ def ref_lonlat(X, Y):
 
 def oracle(scn) -> core.CaseResult:
     res = core.CaseResult()
-    o = scn["output"]
-    layout = o["layout"]
-    dtype = o["dtype"]
-    res.cls(layout)
+    res.cls(scn["output"]["layout"])
+    if scn["output"].get("pack_age"):
+        res.cls("packed_variable")
     with e2e.workdir() as d:
         r, meta = sim.run(d, scn)
         writes = [e for e in r["log"] if e[0] == "write"]
@@ -48,6 +47,60 @@ def oracle(scn) -> core.CaseResult:
             return res
         names = out_files(d, scn)
         ref = np.datetime64(meta["ref"], "s")
+        check_records(res, d, names, writes, ref, scn)
+    return res
+
+
+def warm_oracle(scn) -> core.CaseResult:
+    """The same record-by-record comparison for a run that was warm-started from a restart file."""
+    import copy
+
+    res = core.CaseResult()
+    res.cls(scn["output"]["layout"])
+    if scn["output"].get("pack_age"):
+        res.cls("packed_variable")
+    numrec = scn["output"]["numrec"]
+    nsteps = scn["time"]["nsteps"]
+    with e2e.workdir() as d0, e2e.workdir() as d1:
+        r0, m0 = sim.run(d0, scn, record_output=False)
+        if not res.check(r0["status"] == "ok", "run_fails", f"base run: {r0['exc']}\n{(r0['tb'] or '')[-500:]}"):
+            return res
+        names0 = e2e.list_outputs(d0)
+        points = []
+        for k, wname in enumerate(names0):
+            fk = e2e.read_sparse(d0 / wname)
+            if len(fk["times"]) < numrec:
+                continue
+            done = int((fk["times"][-1] - m0["start"]) / np.timedelta64(sim.DT, "s"))
+            if done < nsteps:
+                points.append((k, wname, done))
+        if not points:
+            res.cls("no_restart_point")
+            return res
+        k, wname, done = points[scn["warm_point"] % len(points)]
+        s1 = copy.deepcopy(scn)
+        path, m1 = sim.build(d1, s1, out_name=f"out_{k + 1:03d}.nc", record_output=True, ibm_offset=done)
+        conf = m1["conf"]
+        del conf["time"]["start"]
+        wvars = ["tag", "age"] + (["temp"] if scn["forcing"]["temp"] else []) + list(scn["pvars"])
+        conf["warm_start"] = {"filename": str(d0 / wname), "variables": wvars}
+        e2e.write_yaml(conf, path)
+        r1 = e2e.run_main(path)
+        if not res.check(r1["status"] == "ok", "run_fails", f"warm start from {wname}: {r1['exc']}\n{(r1['tb'] or '')[-600:]}"):
+            return res
+        writes = [e for e in r1["log"] if e[0] == "write"]
+        names = e2e.list_outputs(d1)
+        # without a configured reference time the file's own reference is taken as given (the restart time)
+        ref = np.datetime64(m1["ref"], "s") if scn["output"]["ref"] != "none" else None
+        check_records(res, d1, names, writes, ref, scn)
+        res.cls("warm_start")
+    return res
+
+
+def check_records(res, d, names, writes, ref, scn):
+        o = scn["output"]
+        layout = o["layout"]
+        dtype = o["dtype"]
         recno = 0
         pidsets = []
         for name in names:
@@ -60,6 +113,8 @@ def oracle(scn) -> core.CaseResult:
             if not res.check(recno + nrec <= len(writes), "extra_records",
                              f"{name}: more records than writes ({recno + nrec} > {len(writes)})"):
                 return res
+            if ref is None:
+                ref = f["ref"]
             res.check(f["ref"] == ref, "time_units", f"{name}: reference {f['ref']} expected {ref}")
             if layout == "sparse":
                 res.check(int(f["count"].sum()) == f["ninst"], "count_sum",
@@ -145,7 +200,7 @@ def oracle(scn) -> core.CaseResult:
         res.cls("with_deaths" if deaths else "no_deaths")
         if scn["pvars"]:
             res.cls("with_pvars")
-    return res
+        return res
 
 
 def pid_law_oracle(scn) -> core.CaseResult:
@@ -174,10 +229,30 @@ def pid_law_oracle(scn) -> core.CaseResult:
     return res
 
 
+@st.composite
+def cases(draw):
+    scn = draw(sim.scenario(dtypes=("f8", "f8", "f4")))
+    scn["output"]["pack_age"] = draw(st.sampled_from([None, None, None, [0.25, -3.0], [0.5, 0.0]]))
+    return scn
+
+
+@st.composite
+def warm_cases(draw):
+    from checks import c08
+
+    scn = draw(c08.cases(14))
+    scn["output"]["layout"] = "sparse"
+    scn["output"]["dtype"] = draw(st.sampled_from(["f8", "f8", "f4"]))
+    scn["warm_point"] = draw(st.integers(0, 5))
+    return scn
+
+
 def shard(part, n, seed, known):
     stt = core.Stats()
     if part == "records":
-        core.drive("records", sim.scenario(dtypes=("f8", "f8", "f4")), oracle, n, seed, stt, known)
+        core.drive("records", cases(), oracle, n, seed, stt, known)
+    elif part == "warm":
+        core.drive("warm", warm_cases(), warm_oracle, n, seed, stt, known)
     else:
         core.drive("output", sim.scenario(layouts=("sparse",)), pid_law_oracle, n, seed, stt, known)
     return stt
@@ -194,7 +269,9 @@ def run_pid_laws(ctx):
 
 def run(ctx):
     jobs = [("records", k, core.subseed(ctx.seed, "rec", i), ctx.known_sigs)
-            for i, k in enumerate(core.split(ctx.n(640, 15000), 16))]
+            for i, k in enumerate(core.split(ctx.n(640, 15000), 12))]
+    jobs += [("warm", k, core.subseed(ctx.seed, "warm", i), ctx.known_sigs)
+             for i, k in enumerate(core.split(ctx.n(200, 5000), 4))]
     stats = core.Stats()
     for s in core.pmap(shard, jobs):
         stats.merge(s)
@@ -203,11 +280,13 @@ def run(ctx):
               "IBM kills/deactivation/lifetime, out-of-grid flow, particle variables incl. time-typed, sparse/dense, "
               "reference time before/at/after start, f4/f8, numrec); every record compared with the state snapshot "
               "taken by a recording output plug-in at write time; non-trivial = some record has a different "
-              "particle set than its predecessor"),
+              "particle set than its predecessor; part 'warm': the same comparison for a run warm-started from a "
+              "completed file of a split run (restart point drawn), optionally with a packed (scale_factor / "
+              "add_offset) state variable"),
         assumptions=["state snapshot taken in Output.write before delegating is 'the model state at that time'",
                      "f4 encodings compared at float32 precision", "affine lon/lat grid (bilinear is exact)"],
     )
 
 
 def replay(part, case):
-    return oracle(case) if part == "records" else pid_law_oracle(case)
+    return {"records": oracle, "warm": warm_oracle}.get(part, pid_law_oracle)(case)
